@@ -13,6 +13,7 @@ package main
 // falls back to plain reachability (a superset of paths: still sound) if the state budget is exhausted.
 
 import (
+	"go/constant"
 	"go/token"
 	"go/types"
 	"sort"
@@ -22,7 +23,13 @@ import (
 	"golang.org/x/tools/go/ssa"
 )
 
-type triEnv map[ssa.Value]int8 // 1 = false / nil, 2 = true / non-nil
+// vsVal is what a path knows about a value: t: 1 = false / nil, 2 = true / non-nil; c: its constant value.
+type vsVal struct {
+	t int8
+	c constant.Value
+}
+
+type triEnv map[ssa.Value]vsVal
 
 func (e triEnv) key() string {
 	if len(e) == 0 {
@@ -30,12 +37,30 @@ func (e triEnv) key() string {
 	}
 	ks := make([]string, 0, len(e))
 	for v, t := range e {
-		if t != 0 {
-			ks = append(ks, v.Name()+"="+strconv.Itoa(int(t)))
+		if t.t != 0 || t.c != nil {
+			k := v.Name() + "=" + strconv.Itoa(int(t.t))
+			if t.c != nil {
+				k += "/" + t.c.ExactString()
+			}
+			ks = append(ks, k)
 		}
 	}
 	sort.Strings(ks)
 	return strings.Join(ks, ",")
+}
+
+// evalConst: the constant value of v along the path, if known.
+func evalConst(v ssa.Value, env triEnv) constant.Value {
+	switch x := v.(type) {
+	case *ssa.Const:
+		return x.Value
+	case *ssa.ChangeType:
+		return evalConst(x.X, env)
+	}
+	if t, ok := env[v]; ok {
+		return t.c
+	}
+	return nil
 }
 
 func isNilable(v ssa.Value) bool {
@@ -48,8 +73,14 @@ func isNilable(v ssa.Value) bool {
 
 // evalTri evaluates a boolean value (1 false, 2 true) or the nil-ness of a nilable value (1 nil, 2 non-nil); 0 = unknown.
 func evalTri(v ssa.Value, env triEnv) int8 {
-	if t, ok := env[v]; ok && t != 0 {
-		return t
+	if t, ok := env[v]; ok && t.t != 0 {
+		return t.t
+	}
+	if t, ok := env[v]; ok && t.c != nil && t.c.Kind() == constant.Bool {
+		if constant.BoolVal(t.c) {
+			return 2
+		}
+		return 1
 	}
 	switch x := v.(type) {
 	case *ssa.Const:
@@ -75,6 +106,17 @@ func evalTri(v ssa.Value, env triEnv) int8 {
 			}
 		}
 	case *ssa.BinOp:
+		switch x.Op {
+		case token.EQL, token.NEQ, token.LSS, token.LEQ, token.GTR, token.GEQ:
+			if a, b := evalConst(x.X, env), evalConst(x.Y, env); a != nil && b != nil && a.Kind() == b.Kind() && a.Kind() != constant.Unknown {
+				if (a.Kind() == constant.Bool || a.Kind() == constant.String || a.Kind() == constant.Int) && (x.Op == token.EQL || x.Op == token.NEQ || a.Kind() != constant.Bool) {
+					if constant.Compare(a, x.Op, b) {
+						return 2
+					}
+					return 1
+				}
+			}
+		}
 		if x.Op == token.EQL || x.Op == token.NEQ {
 			var o ssa.Value
 			if isNilConst(x.Y) {
@@ -135,6 +177,10 @@ func (g *IG) relevantValues() map[ssa.Value]bool {
 					tested[b.X]++
 				} else if isNilConst(b.X) {
 					tested[b.Y]++
+				} else if _, ok := b.Y.(*ssa.Const); ok {
+					tested[b.X]++
+				} else if _, ok := b.X.(*ssa.Const); ok {
+					tested[b.Y]++
 				}
 			} else {
 				tested[c]++
@@ -171,18 +217,52 @@ func learnFromIf(iff *ssa.If, k int, env triEnv, rel map[ssa.Value]bool) {
 		if o != nil && rel[o] {
 			isNil := (b.Op == token.EQL) == truth
 			if isNil {
-				env[o] = 1
+				env[o] = vsVal{t: 1}
 			} else {
-				env[o] = 2
+				env[o] = vsVal{t: 2}
+			}
+			return
+		}
+		// x == const on the taken edge; x != const where x is a phi of constants with a single other value
+		var x ssa.Value
+		var k constant.Value
+		if cc, ok := b.Y.(*ssa.Const); ok && cc.Value != nil {
+			x, k = b.X, cc.Value
+		} else if cc, ok := b.X.(*ssa.Const); ok && cc.Value != nil {
+			x, k = b.Y, cc.Value
+		}
+		if x != nil && rel[x] {
+			if (b.Op == token.EQL) == truth {
+				env[x] = vsVal{c: k}
+			} else if phi, ok := x.(*ssa.Phi); ok {
+				var other constant.Value
+				n := 0
+				for _, e := range phi.Edges {
+					ec, isC := e.(*ssa.Const)
+					if !isC || ec.Value == nil {
+						n = 99
+						break
+					}
+					if constant.Compare(ec.Value, token.EQL, k) {
+						continue
+					}
+					if other == nil || !constant.Compare(ec.Value, token.EQL, other) {
+						other = ec.Value
+						n++
+					}
+				}
+				if n == 1 {
+					env[x] = vsVal{c: other}
+				}
 			}
 		}
 		return
 	}
 	if rel[c] && isBoolType(c.Type()) {
 		if truth {
-			env[c] = 2
+			env[c] = vsVal{t: 2}
 		} else {
-			env[c] = 1
+			env[c] = vsVal{t: 1}
 		}
 	}
 }
@@ -191,7 +271,33 @@ const reachVSBudget = 400000
 
 // reachVS: see the file comment. edgeOK (may be nil) prunes further.
 func (g *IG) reachVS(starts []int, stop func(ssa.Instruction) bool, edgeOK func(term ssa.Instruction, k int) bool) ([]bool, bool) {
+	return g.reachVSInit(starts, stop, edgeOK, nil)
+}
+
+// reachAssuming explores from the function entry under assumptions about some values (e.g. a parameter equal to
+// a constant). Falls back to plain reachability when the budget is exhausted.
+func (g *IG) reachAssuming(init triEnv, stop func(ssa.Instruction) bool) []bool {
+	if len(g.instrs) == 0 {
+		return nil
+	}
+	if r, ok := g.reachVSInit([]int{0}, stop, nil, init); ok {
+		return r
+	}
+	return g.reachPlain([]int{0}, stop)
+}
+
+func (g *IG) reachVSInit(starts []int, stop func(ssa.Instruction) bool, edgeOK func(term ssa.Instruction, k int) bool, init triEnv) ([]bool, bool) {
 	rel := g.relevantValues()
+	if len(init) > 0 {
+		r2 := map[ssa.Value]bool{}
+		for v := range rel {
+			r2[v] = true
+		}
+		for v := range init {
+			r2[v] = true
+		}
+		rel = r2
+	}
 	type st struct {
 		n   int
 		env triEnv
@@ -201,6 +307,9 @@ func (g *IG) reachVS(starts []int, stop func(ssa.Instruction) bool, edgeOK func(
 	var stack []st
 	for _, s := range starts {
 		env := triEnv{}
+		for v, t := range init {
+			env[v] = t
+		}
 		// a start at the head of a block with a single predecessor inherits what that edge teaches
 		in := g.instrs[s]
 		b := in.Block()
@@ -289,7 +398,7 @@ func (g *IG) reachVS(starts []int, stop func(ssa.Instruction) bool, edgeOK func(
 			}
 			type upd struct {
 				phi *ssa.Phi
-				t   int8
+				t   vsVal
 			}
 			var upds []upd
 			for _, si := range succ.Instrs {
@@ -297,14 +406,17 @@ func (g *IG) reachVS(starts []int, stop func(ssa.Instruction) bool, edgeOK func(
 				if !ok {
 					break
 				}
-				t := int8(0)
+				var t vsVal
 				if predIdx >= 0 && npred == 1 {
-					t = evalTri(phi.Edges[predIdx], nenv)
+					t.t = evalTri(phi.Edges[predIdx], nenv)
+					if c := evalConst(phi.Edges[predIdx], nenv); c != nil && (c.Kind() == constant.Bool || c.Kind() == constant.String || c.Kind() == constant.Int) {
+						t.c = c
+					}
 				}
 				upds = append(upds, upd{phi, t})
 			}
 			for _, u := range upds {
-				if u.t == 0 {
+				if u.t.t == 0 && u.t.c == nil {
 					delete(nenv, u.phi)
 				} else {
 					nenv[u.phi] = u.t
